@@ -251,7 +251,7 @@ func main() {
 			if tier == "thorough" {
 				return 2400
 			}
-			return 96
+			return 48
 		},
 		Setup: func(tier string) error {
 			logrus.SetLevel(logrus.PanicLevel)
